@@ -199,6 +199,22 @@ func c15Enumerate(tier string, rng *core.Rand) []*tx {
 			all = append(all, t)
 		}
 	}
+	// instantiations whose underscore-joined spellings coincide (P2<Qa_Qb, Qc> and P2<Qa, Qb_Qc> both
+	// read "P2_Qa_Qb_Qc"): side by side in one type expression each keeps its own arguments
+	{
+		qab, qc, qa, qbc := leaf("Qa_Qb", "Qa_Qb"), leaf("Qc", "Qc"), leaf("Qa", "Qa"), leaf("Qb_Qc", "Qb_Qc")
+		for _, gname := range []string{"P2", "Pu2"} {
+			x := &tx{k: "gen", fo: gname, gox: gname, args: []*tx{qab, qc}}
+			y := &tx{k: "gen", fo: gname, gox: gname, args: []*tx{qa, qbc}}
+			all = append(all, x, y,
+				&tx{k: "tuple", args: []*tx{x, y}}, &tx{k: "tuple", args: []*tx{y, x}}, &tx{k: "tuple", args: []*tx{x, y, x}},
+				&tx{k: "func", args: []*tx{x, y}}, &tx{k: "func", args: []*tx{y, x, y}},
+				&tx{k: "slice", args: []*tx{&tx{k: "tuple", args: []*tx{x, y}}}},
+				&tx{k: "gen", fo: "dict.Dict", gox: "dict.Dict", args: []*tx{leaves[1], &tx{k: "tuple", args: []*tx{y, x}}}},
+				&tx{k: "gen", fo: "G", gox: "G", args: []*tx{&tx{k: "func", args: []*tx{x, y}}}},
+				&tx{k: "gen", fo: gname, gox: gname, args: []*tx{x, y}})
+		}
+	}
 	// depth 3 (and 4 in thorough): seeded sample built from depth-2 arguments over {int, string, R}
 	n3 := 400
 	if tier == "thorough" {
@@ -268,6 +284,20 @@ type G<T> = {Item: T}
 type Gu<T> =
 | GuS of T
 | GuN
+
+type Qa_Qb = {Fqab: int}
+
+type Qc = {Fqc: int}
+
+type Qa = {Fqa: int}
+
+type Qb_Qc = {Fqbc: int}
+
+type P2<T, U> = {P2a: T; P2b: U}
+
+type Pu2<T, U> =
+| Pu2a of T
+| Pu2b of U
 
 `
 
